@@ -210,6 +210,19 @@ func (rc *RunCtx) Reseed(uid int) {
 
 func (rc *RunCtx) Defer(f func()) { rc.cleanup = append(rc.cleanup, f) }
 
+// MaybeGC: the collector is switched off during a run (its background workers would take part in the
+// schedule). Worlds whose oracles produce much garbage (file images read at every stop point) call this
+// at step boundaries, at quiescence: above the threshold a collection is forced there.
+func (rc *RunCtx) MaybeGC() {
+	var mst runtime.MemStats
+	runtime.ReadMemStats(&mst)
+	if mst.HeapAlloc > 1<<30 {
+		synctest.Wait()
+		runtime.GC()
+		rc.probes["forced_gc_inside_run"]++
+	}
+}
+
 // ---------------------------------------------------------------- world registry
 
 type worldFunc func(rc *RunCtx)
@@ -245,6 +258,10 @@ func TestSim(t *testing.T) {
 	theT = t
 	runtime.GOMAXPROCS(1)
 	debug.SetGCPercent(-1)
+	// safety valve: with the collector off a single huge run could take many GB (16 workers share the
+	// machine); near this limit the runtime collects by itself, whatever that does to the schedule of
+	// that one run
+	debug.SetMemoryLimit(3 << 30)
 	var out *os.File
 	if *flagOut != "" {
 		f, err := os.OpenFile(*flagOut, os.O_CREATE|os.O_WRONLY|os.O_APPEND, 0644)
@@ -296,8 +313,15 @@ func TestSim(t *testing.T) {
 			samples++
 		}
 		emit(res)
-		if i%50 == 49 {
+		// the collector is off during a run; collect between runs - at the latest every 50 runs,
+		// at once when a run left much behind (the application worlds: gzip writers, file images)
+		var mst runtime.MemStats
+		runtime.ReadMemStats(&mst)
+		if i%50 == 49 || mst.HeapAlloc > 768<<20 {
 			runtime.GC()
+			if mst.HeapAlloc > 768<<20 {
+				debug.FreeOSMemory()
+			}
 		}
 	}
 	emit(map[string]interface{}{"done": true})
